@@ -169,7 +169,9 @@ class Out:
         self.skipped[why] = self.skipped.get(why, 0) + n
 
 
-def lib_vector(vec, look, lib, conc, out):
+def lib_vector(vec, look, lib, conc, out, rnd, free_share):
+    """free_share: share of the unconstrained cases that is still executed
+    (they can only show an exception)."""
     a = vec['a']
     a_c = [conc(x) for x in a]
     n = len(a)
@@ -179,7 +181,11 @@ def lib_vector(vec, look, lib, conc, out):
         v_c = conc(lv)
         for ti, t in enumerate(TYPES):
             allowed = vec['m'][i][ti]
-            out.free += FREE in allowed
+            if FREE in allowed:
+                out.free += 1
+                if free_share < 1 and rnd.random() >= free_share:
+                    out.skip('unconstrained MATCH cases not executed (quick tier)')
+                    continue
             # one orientation per case, both over the run
             for orient, arr in ((('col', col),) if (i + ti + n) % 2 else
                                 (('row', row),)):
@@ -200,8 +206,10 @@ def lib_vector(vec, look, lib, conc, out):
     if n:
         for k, allowed in enumerate(vec['ix']):
             i = -1 if k == n + 1 else k + 1
-            for form, args in (('col', (col, i)), ('row', (row, i)),
-                               ('col2', (col, i, 1)), ('row2', (row, 1, i))):
+            forms = (('col', (col, i)), ('row', (row, i)),
+                     ('col2', (col, i, 1)), ('row2', (row, 1, i)))
+            for form, args in (forms if free_share >= 1 else
+                               forms[(k + n) % 2::2]):
                 got = call(lib['index'], *args)
                 out.evals += 1
                 if not cell_ok(got, allowed, conc):
@@ -483,7 +491,7 @@ def work(span):
         look = looks[(vec['run'], vec['mode'])]
         n = len(vec['a'])
         if vec['kind'] == 'vec':
-            lib_vector(vec, look, lib, conc, out)
+            lib_vector(vec, look, lib, conc, out, rnd, _STATE['free_share'])
             out.keys += len(look) * 3 + len(vec['ix'])
             if rnd.random() < fprob.get(('vec', n), fprob['*']):
                 formula_vector(vec, look, conc, rnd, out)
@@ -496,12 +504,13 @@ def work(span):
     return out
 
 
-def execute(v, vectors, looks, seed, fprob, totals):
+def execute(v, vectors, looks, seed, fprob, totals, free_share=1.0):
     """Run all vectors on the real code in forked workers."""
     if not vectors:
         return
     t0 = time.time()
-    _STATE.update(vectors=vectors, looks=looks, seed=seed, fprob=fprob)
+    _STATE.update(vectors=vectors, looks=looks, seed=seed, fprob=fprob,
+                  free_share=free_share)
     _STATE.pop('lib', None)
     nproc = max(1, min(16, os.cpu_count() or 1))
     gc.freeze()        # keep the collector of the forked workers off the vectors
@@ -628,17 +637,17 @@ def dedup(vectors):
 
 
 # ------------------------------------------------------------------ run ---
-QUICK_FPROB = {'*': 0.004, ('vec', 1): 0.3, ('vec', 2): 0.05, ('vec', 3): 0.008,
-               ('tbl', 1): 0.5, ('tbl', 2): 0.08, ('tbl', 3): 0.02, ('tbl', 4): 0.008}
+QUICK_FPROB = {'*': 0.003, ('vec', 1): 0.25, ('vec', 2): 0.04, ('vec', 3): 0.006,
+               ('tbl', 1): 0.4, ('tbl', 2): 0.06, ('tbl', 3): 0.015, ('tbl', 4): 0.006}
 THOROUGH_FPROB = {'*': 0.02, ('vec', 1): 1.0, ('vec', 2): 0.5, ('vec', 3): 0.1,
                   ('tbl', 1): 1.0, ('tbl', 2): 0.5, ('tbl', 3): 0.2,
                   ('tbl', 4): 0.06, ('tbl', 5): 0.03, ('tbl', 6): 0.02}
 
-BIG = [('wide<=4', 'BigModes[1]', 0), ('five values<=6', 'BigModes[2]', 0),
+BIG = [('wide<=4', 'BigModes[1]', 0), ('four values<=6', 'BigModes[2]', 0),
        ('neutral<=5', 'BigModes[3]', 0), ('one per type<=8', 'BigModes[4]', 0),
        ('sorted<=6', 'BigModes[5]', 0), ('sorted<=8', 'BigModes[6]', 0),
-       ('table w=2', 'BigModes[7]', 1), ('table w=3', 'BigModes[8]', 1),
-       ('table w=4', 'BigModes[9]', 1)]
+       ('table 4x2', 'BigModes[7]', 1), ('table 5x3', 'BigModes[8]', 1),
+       ('table 6x4', 'BigModes[9]', 1)]
 
 
 def run(tier, seed):
@@ -655,7 +664,7 @@ def run(tier, seed):
         for vec in vectors[:3]:
             v.sample({k: vec[k] for k in ('kind', 'a', 'asc', 'desc') if k in vec})
         nvec += len(vectors)
-        execute(v, vectors, looks, seed, QUICK_FPROB, totals)
+        execute(v, vectors, looks, seed, QUICK_FPROB, totals, free_share=0.4)
     else:
         for k, (label, expr, ntab) in enumerate(BIG):
             before = v.states
@@ -691,7 +700,9 @@ def run(tier, seed):
         (rest if k in seen else first).append(x)
         seen.add(k)
     v.violations = first + rest
-    v.distinct = range(totals['keys'])     # distinct (function, arguments) cases
+    # distinct (function, arguments) cases that were executed
+    v.distinct = range(totals['keys'] - totals['skipped'].get(
+        'unconstrained MATCH cases not executed (quick tier)', 0))
     v.extra.update(
         exhaustive=(tier == 'quick'),
         vectors=nvec,
@@ -706,10 +717,11 @@ def run(tier, seed):
                 'all sorted vectors <= 5, tables <= 4x3; x 24 lookup values x '
                 'match types {-1,0,1} x result indices -1..w+1'
                 if tier == 'quick' else
-                'thorough: all vectors <= 4 (12-value pool) / 6 (5 values) / 5 '
+                'thorough: all vectors <= 4 (10-value pool) / 6 (4 values) / 5 '
                 '(neutral values) / 8 (one value per type), all sorted vectors '
-                '<= 6 (9 values) / <= 8 (6 values), tables <= 6x4 exhaustive '
-                '(4 keys); simulation: 12-value pool to length 8, tables 6x4'),
+                '<= 6 (9 values) / <= 8 (6 values), tables 4x2, 5x3, 6x4 '
+                'exhaustive (4 keys); simulation: 12-value pool to length 8, '
+                'tables 6x4'),
         rule='one case = (function, concrete arguments); result must be a '
              'member of the allowed set exported by TLC; every vector through '
              'library calls (column and row orientation), a sample through '
